@@ -22,6 +22,18 @@ use incan_core::lang::{enum_helpers, surface::option_methods};
 
 use super::TypeChecker;
 
+/// The value of an integer literal index, `t[2]` or `t[-1]` (a negative literal is a negation node in the AST).
+fn literal_int_index(index: &Expr) -> Option<i64> {
+    match index {
+        Expr::Literal(Literal::Int(n)) => Some(*n),
+        Expr::Unary(UnaryOp::Neg, inner) => match &inner.node {
+            Expr::Literal(Literal::Int(n)) => Some(-*n),
+            _ => None,
+        },
+        _ => None,
+    }
+}
+
 impl TypeChecker {
     /// Fetch a trait method signature for validation (cloned to avoid borrow conflicts).
     fn trait_method_info(&self, trait_name: &str, method: &str) -> Option<MethodInfo> {
@@ -233,10 +245,11 @@ impl TypeChecker {
                 Some(CollectionTypeId::Tuple) => {
                     // `Tuple[T1, ...]` (and `tuple[...]` normalized) behaves like a tuple.
                     let elems = args;
-                    let Expr::Literal(Literal::Int(raw_idx)) = &index.node else {
+                    let Some(raw_idx) = literal_int_index(&index.node) else {
                         self.errors.push(errors::tuple_index_requires_int_literal(index.span));
                         return ResolvedType::Unknown;
                     };
+                    let raw_idx = &raw_idx;
                     let len = elems.len() as i64;
                     let mut idx = *raw_idx;
                     if idx < 0 {
@@ -260,10 +273,11 @@ impl TypeChecker {
             }
             ResolvedType::Tuple(elems) => {
                 // Guardrail: tuple indexing must be an integer literal so we can bounds-check.
-                let Expr::Literal(Literal::Int(raw_idx)) = &index.node else {
+                let Some(raw_idx) = literal_int_index(&index.node) else {
                     self.errors.push(errors::tuple_index_requires_int_literal(index.span));
                     return ResolvedType::Unknown;
                 };
+                let raw_idx = &raw_idx;
                 let len = elems.len() as i64;
                 let mut idx = *raw_idx;
                 if idx < 0 {
